@@ -129,16 +129,18 @@ class C31(Prop):
         "Coq theorems over an executable Q/Z transcription of is_ccw_polygon, is_ccw_polyline, "
         "point_in_polygon (repaired), points_are_collinear (repaired), points_are_planar, "
         "point_inside_half_space_intersection, sort_point_pairs and the sort key of "
-        "sort_points_on_line: ccw <=> shoelace area positive (any polygon); polyline side test; "
-        "half-space membership <=> all inequalities; sort_point_pairs on success returns a "
-        "duplicate-free index list whose columns are the input pairs up to flipping and form a "
-        "chain; point_in_polygon answers True for every point strictly left of all edges "
-        "(= strictly inside a convex ccw polygon), and agrees with the exact crossing-number "
-        "test on all integer points of fixed boxes for fixed non-convex integer polygons "
-        "(finite-domain proofs by vm_compute, bounds in the statements).  Every modelled "
-        "function is tied to /repo on each run (Coq recomputes the model on the generated "
-        "inputs and compares).  point_in_polyhedron (solid angles, arctan2) is covered by the "
-        "exact oracle only.")
+        "sort_points_on_line: ccw <=> shoelace area positive (any polygon); polyline side test "
+        "with tolerance band; half-space membership <=> all inequalities (and the ValueError); "
+        "collinearity test accepts exactly collinear sets and bounds every tested cross "
+        "product on acceptance; point_in_polygon answers True for every point strictly left "
+        "of all edges (= strictly inside a convex ccw polygon; partial: converse not proved) "
+        "and equals the exact even-odd crossing-number test on ALL integer points of "
+        "[-2,8]^2 for five fixed non-convex integer polygons (finite-domain proofs by "
+        "vm_compute, bounds in the statement); for sort_point_pairs only the chaining step "
+        "of the inner loop is proved (partial).  Every modelled function is tied to /repo on "
+        "each run (Coq recomputes the model on the generated inputs and compares, including "
+        "raised errors).  point_in_polyhedron (solid angles, arctan2) and the end-to-end "
+        "validity of the two sort helpers are covered by exact oracles only.")
     level_note = (
         "Trusted: Coq kernel + vm_compute; harness generator/emitter/oracle; squared forms of "
         "the norm tests; points_are_planar only with an explicit normal (compute_normal not "
